@@ -20,7 +20,7 @@ pub fn run(n: u64) -> i32 {
         let target = if i % 200 == 0 { rng.range(40_000, 150_000) } else { rng.range(0, 800) };
         // 1. valid streams: reference inflater == generator ground truth == zlib
         let edge = if i % 17 == 3 { rng.pick(&[32766usize, 32767, 32768, 32769, 65535, 65536, 65537, 255, 256, 257, 4096]) } else { 0 };
-        let s = foreign::generate(&mut rng, &GenCfg { zlib, target: if edge > 0 { target.min(2000) } else { target }, spec: Spec::None, max_dist: 32768, edge });
+        let s = foreign::generate(&mut rng, &GenCfg { zlib, target: if edge > 0 { target.min(2000) } else { target }, spec: Spec::None, max_dist: 32768, edge, alt258: false });
         let r = refinf::inflate(&s.bytes, &Opts::flat(zlib));
         let z = zlibffi::zinflate(&s.bytes, if zlib { 15 } else { -15 }, 1 << 26);
         let ok = r.verdict == Verdict::Valid && r.out == s.plain && r.consumed == s.enc_len && z.ret == zlibffi::Z_STREAM_END && z.out == s.plain && z.total_in == s.enc_len;
@@ -45,7 +45,7 @@ pub fn run(n: u64) -> i32 {
                 spec = Spec::LenNlen;
             }
             let tt = rng.range(0, 500);
-            let t = foreign::generate(&mut rng, &GenCfg { zlib, target: tt, spec, max_dist: 32768, edge: 0 });
+            let t = foreign::generate(&mut rng, &GenCfg { zlib, target: tt, spec, max_dist: 32768, edge: 0, alt258: false });
             let r = refinf::inflate(&t.bytes, &Opts::flat(zlib));
             let z = zlibffi::zinflate(&t.bytes, if zlib { 15 } else { -15 }, 1 << 26);
             invalid += 1;
